@@ -46,10 +46,13 @@ def mc_step(res, label, module, cfg_text, workers=8, timeout=900, env=None, cove
     return r
 
 
-def _run_replayer(bindir, args, files, timeout, run_env=None):
+MEMCHECK = ["valgrind", "-q", "--error-exitcode=0", "--undef-value-errors=no", "--num-callers=6"]
+
+
+def _run_replayer(bindir, args, files, timeout, run_env=None, wrapper=None):
     env = dict(os.environ, VERIF_CLASSES=families.classes_file())
     env.update(run_env or {})
-    cmd = [os.path.join(bindir, "replayer")] + args + files
+    cmd = (wrapper or []) + [os.path.join(bindir, "replayer")] + args + files
     try:
         r = subprocess.run(cmd, capture_output=True, text=True, errors="replace", timeout=timeout, env=env)
     except subprocess.TimeoutExpired:
@@ -57,8 +60,69 @@ def _run_replayer(bindir, args, files, timeout, run_env=None):
     return r
 
 
+def memcheck_step(res, fams, backends=(None, 2), parts=12, stride=1):
+    """the replayer under valgrind memcheck, every vector in an exact-size heap block: an access
+    outside the caller's buffer that stays inside mapped memory (never faults, changes no result)
+    is visible only to a memory checker.  The family is split over `parts` processes."""
+    import itertools
+    from concurrent.futures import ThreadPoolExecutor
+    bindir = build_harness("release")
+    wd = os.path.join(WORK, "run", "%s-%s" % (res.prop, res.tier), "memcheck")
+    shutil.rmtree(wd, ignore_errors=True)
+    os.makedirs(wd)
+    total = 0
+    for f in fams:
+        path, meta = families.family_file(f)
+        outs = [open(os.path.join(wd, "%s.%d.vec" % (f, i)), "w") for i in range(parts)]
+        with open(path) as fh:
+            for i, line in enumerate(fh):
+                if i % stride == 0:
+                    outs[(i // stride) % parts].write(line)
+        for o in outs:
+            o.close()
+        for b in backends:
+            args = ["--mode", "heap", "--threads", "1"] + (["--force-backend", str(b)] if b is not None else [])
+            t0 = time.time()
+            def one(i):
+                return _run_replayer(bindir, args, [os.path.join(wd, "%s.%d.vec" % (f, i))], 1800, wrapper=MEMCHECK)
+            with ThreadPoolExecutor(max_workers=parts) as ex:
+                rs = list(ex.map(one, range(parts)))
+            nvec = 0
+            nmis = 0
+            for r in rs:
+                if r.returncode in (70, 71):
+                    res.violation("the code under test crashed or hung under the memory checker (%s, backend %s)" % (f, b),
+                                  {"kind": "memcheck-crash", "key": "memcheck-crash:%s:%s" % (f, b), "stderr": r.stderr[-600:]})
+                    continue
+                if r.returncode != 0:
+                    raise ToolError("replayer under valgrind failed rc=%d:\n%s" % (r.returncode, r.stderr[-2000:]))
+                for line in r.stdout.splitlines():
+                    if line.startswith("SUMMARY "):
+                        sm = json.loads(line[8:])
+                        nvec += sm["vectors"]
+                        res.evaluations += sm["observations"]
+                    elif line.startswith("MISMATCH "):
+                        m = json.loads(line[9:])
+                        nmis += 1
+                        if m["prop"] == res.prop:
+                            res.violation("%s [%s, %s; memcheck, backend %s]" % (m["msg"], m["entry"], m["context"], b),
+                                          {"kind": "vector", "family": f, "modes": "heap", "backend": b, "vector": m["vector"], "memcheck": True,
+                                           "msg": m["msg"], "entry": m["entry"], "context": m["context"],
+                                           "valgrind": "\n".join(l for l in r.stderr.splitlines() if l.startswith("=="))[:1500]})
+                        else:
+                            res.other_tags[m["prop"]] = res.other_tags.get(m["prop"], 0) + 1
+            total += nvec
+            res.traces += nvec
+            res.replays.append({"step": "memcheck/%s/backend%s" % (f, b), "vectors": nvec, "mismatches": nmis, "wall_s": round(time.time() - t0, 1),
+                                "tool": "valgrind memcheck, exact-size heap blocks, all entry points"})
+            log("  [memcheck] %-30s backend=%s vectors=%d mismatches=%d %.0fs" % (f, b, nvec, nmis, time.time() - t0))
+    if total == 0:
+        raise ToolError("memcheck step replayed nothing")
+    shutil.rmtree(wd, ignore_errors=True)
+
+
 def replay_step(res, family, kinds=None, modes="base", profile="release", backend=None, threads=None,
-                variant=None, timeout=3000, files=None, label=None, big=False, baseline=False, promote=False, run_env=None):
+                variant=None, timeout=3000, files=None, label=None, big=False, baseline=False, promote=False, run_env=None, memcheck=False):
     """Replay a cached family through the real parser.  variant = dict(extra_rustflags, env, subdir, features)"""
     if files is None:
         path, meta = families.family_file(family)
@@ -89,7 +153,7 @@ def replay_step(res, family, kinds=None, modes="base", profile="release", backen
     res.hash_files.append(hf)
     args += ["--hashes", hf]
     t0 = time.time()
-    r = _run_replayer(bindir, args, files, timeout, run_env)
+    r = _run_replayer(bindir, args, files, timeout, run_env, wrapper=MEMCHECK if memcheck else None)
     lab = label or ("%s/%s/%s%s%s" % (family, modes, profile, "/backend%s" % backend if backend is not None else "", "/" + variant["subdir"] if variant.get("subdir") else ""))
     ctx = {"family": family, "kinds": kinds, "modes": modes, "profile": profile, "backend": backend, "variant": variant, "run_env": run_env}
     if r.returncode in (70, 71):
